@@ -16,7 +16,7 @@ from .. import fitlib as fl
 MINIMIZER = os.environ.get("VERIF_MINIMIZER", "iminuit")
 _ref_cache = {}
 VALUE_OBS = ("model", "model_error", "model_cov", "total_error", "total_cov", "data_error", "data_cov")
-PROBE = ("cost", "total_cov", "model", "ndf", "pvals")
+PROBE = ("cost", "total_cov", "total_error", "model", "ndf", "pvals")
 
 
 def _key(ftype, dea, mini, muts, o):
@@ -39,17 +39,16 @@ def reference(ftype, dea, mini, muts, o):
     return _ref_cache[k]
 
 
-def canonical(ftype, dea, mini, muts, pvals, o):
+def canonical(ftype, dea, mini, muts, fitted_vals, o):
+    """Fresh fit, same mutators, but every do_fit replaced by SETTING the parameters to the values that fit found."""
     fit = fl.make_fit(ftype, minimizer=mini, dea=dea)
+    k = 0
     for m in muts:
         if m["name"] == "DoFit":
-            continue
-        if m["name"] in ("SetParam", "SetAllParams", "FixAt"):
-            if m["name"] == "FixAt":
-                fit.fix_parameter(m["p"])
+            fit.set_all_parameter_values(list(fitted_vals[k]))
+            k += 1
             continue
         fl.apply_action(fit, ftype, m)
-    fit.set_all_parameter_values(list(pvals))
     return fl.safe_read(fit, ftype, o)
 
 
@@ -58,7 +57,7 @@ def replay_walk(walk, mini=None):
     mini = mini or walk.get("minimizer") or MINIMIZER
     ftype, dea = walk["first"]["type"], walk["first"]["dea"]
     fit = fl.make_fit(ftype, minimizer=mini, dea=dea)
-    muts, issues = [], []
+    muts, issues, fitted_vals = [], [], []
     last = walk["init"]
 
     def viol(k, sig, detail):
@@ -90,15 +89,13 @@ def replay_walk(walk, mini=None):
             viol(k, "ReadCorrect: %s differs from a fresh fit with the same configuration (last mutator %s) %s" % (o, lastm, where),
                  dict(observable=o, difference=d, mutators=muts))
             return False
-        if fitted and muts and muts[-1]["name"] == "DoFit" and o in VALUE_OBS and st.get("posdef", True):
-            pv = fl.safe_read(fit, ftype, "pvals")
-            if pv[0] == "value":
-                can = canonical(ftype, dea, mini, muts, pv[1], o)
-                d = fl.compare(o, got, can, fitted=False)
-                if d and fl.compare(o, got, can, fitted=True):
-                    viol(k, "NothingPinnedAfterFit: %s after do_fit differs from a fresh fit set to the fitted parameters %s" % (o, where),
-                         dict(observable=o, difference=d, mutators=muts))
-                    return False
+        if fitted and o in VALUE_OBS and st.get("posdef", True):
+            can = canonical(ftype, dea, mini, muts, fitted_vals, o)
+            d = fl.compare(o, got, can, fitted=False)
+            if d and fl.compare(o, got, can, fitted=True):
+                viol(k, "NothingPinnedAfterFit: %s differs from a fresh fit whose parameters were SET to the fitted values instead of fitted %s" % (o, where),
+                     dict(observable=o, difference=d, mutators=muts))
+                return False
         return True
 
     for k, e in enumerate(walk["steps"]):
@@ -117,6 +114,12 @@ def replay_walk(walk, mini=None):
                     viol(k, "valid %s raised %s" % (a["name"], r), dict(action=a, mutators=muts))
                     return issues
                 muts.append(a)
+                if a["name"] == "DoFit":
+                    fitted_vals.append([float(v) for v in fit.parameter_values])
+                    pinned = sorted(n for n, node in fit._nexus._nodes.items() if n != "__root__" and node.frozen)
+                    if pinned:
+                        viol(k, "NothingPinnedAfterFit: nodes left frozen after do_fit: %s" % pinned, dict(mutators=muts))
+                        return issues
         last = e
     for o in PROBE:
         if o in ("cost", "gof", "chi2p", "result", "total_inv", "pvals") and not last.get("posdef", True):
